@@ -11,9 +11,140 @@ impl VfsEntry {
     pub fn is_symlink(&self) -> (r: bool) ensures r == self.link { self.link }
     pub fn mode(&self) -> (r: u32) ensures r == self.m { self.m }
 }
-// R4: `sym.chars().rev().collect()`: the characters in reverse order (a stack whose top is the first character)
+// R4: `let mut chars: Vec<char> = sym.chars().rev().collect()`: a stack whose top is the FIRST character of sym.
+// ASSUMED[vec-rev-stack]: popping a Vec built from the reversed characters yields them in forward order; rest() is what is left
 #[verifier::external_body]
-pub fn rev_chars(s: &Str) -> (r: Vec<char>) ensures r@ == s@.reverse() { unimplemented!() }
+pub struct CharStack { x: Vec<char> }
+impl CharStack {
+    pub uninterp spec fn rest(&self) -> Seq<char>;
+    #[verifier::external_body]
+    pub fn pop(&mut self) -> (r: Option<char>)
+        ensures old(self).rest().len() == 0 ==> r is None && final(self).rest() == old(self).rest(),
+                old(self).rest().len() > 0 ==> r == Some(old(self).rest()[0]) && final(self).rest() == old(self).rest().skip(1)
+    { unimplemented!() }
+    #[verifier::external_body]
+    pub fn is_empty(&self) -> (b: bool) ensures b == (self.rest().len() == 0) { unimplemented!() }
+}
+#[verifier::external_body]
+pub fn rev_chars(s: &Str) -> (r: CharStack) ensures r.rest() == s@ { unimplemented!() }
+
+// ---- the documented grammar as a forward interpreter (specification) ----------------------------------------------------
+//   expression = clause ("," clause)* ;  clause = [dfa]* ":" [ugoa]+ [-+=] [rwx]+
+//   a clause whose target does not match the entry kind (or any clause on a symlink) is skipped; `-` clears, `+` sets, `=` replaces
+pub enum Res { Ok(u32), Err(ErrKind), Unspec }
+pub enum TScan { Bad(ErrKind), Skip(int), Colon(int) }
+pub enum GScan { Bad(ErrKind), Done(u32, char, int) }
+pub enum PScan { Bad(ErrKind), End(u32), Comma(u32, int) }
+pub enum Phase { T(bool), G, P(u32, char) }     // T(after_comma)
+pub open spec fn skip_clause(r: Seq<char>, i: int) -> int decreases r.len() - i {
+    if i < 0 || i >= r.len() { r.len() as int } else if r[i] == ',' { i + 1 } else { skip_clause(r, i + 1) }
+}
+pub open spec fn comma_found(r: Seq<char>, i: int) -> bool decreases r.len() - i {
+    if i < 0 || i >= r.len() { false } else if r[i] == ',' { true } else { comma_found(r, i + 1) }
+}
+pub open spec fn target_scan(e: VfsEntry, r: Seq<char>, i: int) -> TScan decreases r.len() - i {
+    if i < 0 || i >= r.len() { TScan::Bad(ErrKind::InvalidChmod) } else {
+        let c = r[i];
+        if c != 'd' && c != 'f' && c != 'a' && c != ':' { TScan::Bad(ErrKind::InvalidChmodTarget) }
+        else if e.link || (c == 'd' && !e.dir) || (c == 'f' && !e.file) { TScan::Skip(skip_clause(r, i + 1)) }
+        else if c == ':' { TScan::Colon(i + 1) }
+        else { target_scan(e, r, i + 1) }
+    }
+}
+pub open spec fn group_bits(c: char) -> u32 { if c == 'u' { 0o0700u32 } else if c == 'g' { 0o0070u32 } else if c == 'o' { 0o0007u32 } else { 0o0777u32 } }
+pub open spec fn group_scan(r: Seq<char>, i: int, g: u32) -> GScan decreases r.len() - i {
+    if i < 0 || i >= r.len() { GScan::Bad(ErrKind::InvalidChmod) } else {
+        let c = r[i];
+        if c == 'u' || c == 'g' || c == 'o' || c == 'a' { group_scan(r, i + 1, g | group_bits(c)) }
+        else if c == '-' || c == '+' || c == '=' { GScan::Done(g, c, i + 1) }
+        else { GScan::Bad(ErrKind::InvalidChmodGroup) }
+    }
+}
+pub open spec fn perm_bits(c: char) -> u32 { if c == 'r' { 0o0444u32 } else if c == 'w' { 0o0222u32 } else { 0o0111u32 } }
+pub open spec fn perm_scan(r: Seq<char>, i: int, p: u32) -> PScan decreases r.len() - i {
+    if i < 0 || i >= r.len() { PScan::End(p) } else {
+        let c = r[i];
+        if c == 'r' || c == 'w' || c == 'x' { if i + 1 < r.len() { perm_scan(r, i + 1, p | perm_bits(c)) } else { PScan::End(p | perm_bits(c)) } }
+        else if c == ',' { PScan::Comma(p, i + 1) }
+        else { PScan::Bad(ErrKind::InvalidChmodPermissions) }
+    }
+}
+pub open spec fn apply_op(mode: u32, g: u32, op: char, p: u32) -> u32 {
+    if op == '-' { mode & !(g & p) } else if op == '+' { mode | (g & p) } else { (!g & mode) | (g & p) }
+}
+pub proof fn lemma_tscan_bounds(e: VfsEntry, r: Seq<char>, i: int)
+    requires 0 <= i
+    ensures target_scan(e, r, i) is Skip ==> i < target_scan(e, r, i)->Skip_0 <= r.len(),
+            target_scan(e, r, i) is Colon ==> i < target_scan(e, r, i)->Colon_0 <= r.len(),
+    decreases r.len() - i
+{
+    if i < r.len() { lemma_tscan_bounds(e, r, i + 1); lemma_skip_bounds(r, i + 1); }
+}
+pub proof fn lemma_gscan_bounds(r: Seq<char>, i: int, g: u32)
+    requires 0 <= i
+    ensures group_scan(r, i, g) is Done ==> i < group_scan(r, i, g)->Done_2 <= r.len(),
+    decreases r.len() - i
+{
+    if i < r.len() { lemma_gscan_bounds(r, i + 1, g | group_bits(r[i])); }
+}
+pub proof fn lemma_pscan_bounds(r: Seq<char>, i: int, p: u32)
+    requires 0 <= i
+    ensures perm_scan(r, i, p) is Comma ==> i < perm_scan(r, i, p)->Comma_1 <= r.len(),
+    decreases r.len() - i
+{
+    if i < r.len() { lemma_pscan_bounds(r, i + 1, p | perm_bits(r[i])); }
+}
+pub proof fn lemma_skip_bounds(r: Seq<char>, i: int)
+    requires 0 <= i
+    ensures i <= skip_clause(r, i) <= r.len() || (i > r.len() && skip_clause(r, i) == r.len())
+    decreases r.len() - i
+{
+    if i < r.len() && r[i] != ',' { lemma_skip_bounds(r, i + 1); }
+}
+//@ obligation lemma_tscan_bounds props=C11
+//@ obligation lemma_gscan_bounds props=C11
+//@ obligation lemma_pscan_bounds props=C11
+//@ obligation lemma_skip_bounds props=C11
+// `first`: still inside the first clause.  `strict`: the input so far is inside the documented grammar; outside of it the result is
+// left unspecified (Res::Unspec) so that no alarm is raised where the documentation is silent:
+//   * an error in a LATER clause (the property only speaks about the first clause),
+//   * a trailing comma / an empty later clause,
+//   * a target list that is not exactly one letter (":u+r", "df:a+r")            -- see known finding chmod-lenient-grammar
+//   * an expression that ends in the middle of a clause ("f:", "f:u+")           -- see known finding chmod-lenient-grammar
+pub open spec fn fin(strict: bool, res: Res) -> Res { if strict { res } else { Res::Unspec } }
+pub open spec fn run(e: VfsEntry, mode: u32, r: Seq<char>, ph: Phase, first: bool, strict: bool) -> Res decreases r.len() via run_dec {
+    if r.len() == 0 {
+        match ph { Phase::T(ac) => if ac { Res::Unspec } else { fin(strict, Res::Ok(mode)) }, _ => Res::Unspec }
+    } else {
+        match ph {
+            Phase::T(ac) => match target_scan(e, r, 0) {
+                TScan::Bad(k) => fin(strict && first, Res::Err(k)),
+                TScan::Skip(n) => run(e, mode, r.skip(n), Phase::T(comma_found(r, 0)), false, strict),
+                TScan::Colon(n) => run(e, mode, r.skip(n), Phase::G, first, strict && n == 2),
+            },
+            Phase::G => match group_scan(r, 0, 0) {
+                GScan::Bad(k) => fin(strict && first, Res::Err(k)),
+                GScan::Done(g, op, n) => if g == 0 { fin(strict && first, Res::Err(ErrKind::InvalidChmodGroup)) } else { run(e, mode, r.skip(n), Phase::P(g, op), first, strict) },
+            },
+            Phase::P(g, op) => match perm_scan(r, 0, 0) {
+                PScan::Bad(k) => fin(strict && first, Res::Err(k)),
+                PScan::End(p) => if p == 0 { fin(strict && first, Res::Err(ErrKind::InvalidChmodPermissions)) } else { fin(strict, Res::Ok(apply_op(mode, g, op, p))) },
+                PScan::Comma(p, n) => if p == 0 { fin(strict && first, Res::Err(ErrKind::InvalidChmodPermissions)) } else { run(e, apply_op(mode, g, op, p), r.skip(n), Phase::T(true), false, strict) },
+            },
+        }
+    }
+}
+#[via_fn]
+proof fn run_dec(e: VfsEntry, mode: u32, r: Seq<char>, ph: Phase, first: bool, strict: bool) {
+    if r.len() > 0 { lemma_tscan_bounds(e, r, 0); lemma_gscan_bounds(r, 0, 0); lemma_pscan_bounds(r, 0, 0); }
+}
+// what the real function may return for a specification result
+pub open spec fn agrees(res: Res, r: RvResult<u32>) -> bool {
+    match res { Res::Ok(m) => r is Ok && r->Ok_0 == m, Res::Err(k) => r is Err && r->Err_0.kind == k, Res::Unspec => true }
+}
+pub open spec fn phase_of(state: State, group: u32, op: char, ac: bool) -> Phase {
+    match state { State::Target => Phase::T(ac), State::Group => Phase::G, State::Perms => Phase::P(group, op) }
+}
 
 //@ struct file=src/sys/fs/chmod.rs name=State kw=enum
 #[derive(PartialEq, Eq, Structural, Clone, Copy)]
@@ -43,15 +174,15 @@ pub proof fn lemma_group_bits(g: u32)
 
 //@ item _pop file=src/sys/fs/chmod.rs fn=_pop props=C11,C12
 //@ rw R5 * re⟦VfsError::(\w+)\(sym\.to_string\(\)\)\.into\(\)⟧ => ⟦VfsError::\1_().into()⟧
-pub fn _pop(chars: &mut Vec<char>, sym: &Str) -> (r: RvResult<char>)
-    ensures old(chars)@.len() > 0 ==> r is Ok && r->Ok_0 == old(chars)@.last() && final(chars)@ == old(chars)@.drop_last(),
-            old(chars)@.len() == 0 ==> r is Err && r->Err_0.kind == ErrKind::InvalidChmod && final(chars)@ == old(chars)@,
+pub fn _pop(chars: &mut CharStack, sym: &Str) -> (r: RvResult<char>)
+    ensures old(chars).rest().len() > 0 ==> r is Ok && r->Ok_0 == old(chars).rest()[0] && final(chars).rest() == old(chars).rest().skip(1),
+            old(chars).rest().len() == 0 ==> r is Err && r->Err_0.kind == ErrKind::InvalidChmod && final(chars).rest() == old(chars).rest(),
 //@ body
 
 //@ item mode file=src/sys/fs/chmod.rs fn=mode props=C11,C12
 //@ sig pub(crate) fn mode(entry: &VfsEntry, octal: u32, sym: &str) -> RvResult<u32>
 //@ rw R5 * re⟦VfsError::(\w+)\(sym\.to_string\(\)\)\.into\(\)⟧ => ⟦VfsError::\1_().into()⟧
-//@ rw R4 1 ⟦let mut chars: Vec<char> = sym.chars().rev().collect();⟧ => ⟦let mut chars: Vec<char> = rev_chars(sym);⟧
+//@ rw R4 1 ⟦let mut chars: Vec<char> = sym.chars().rev().collect();⟧ => ⟦let mut chars: CharStack = rev_chars(sym);⟧
 //@ rw R9 1 ⟦let mut group = 0;⟧ => ⟦let mut group: u32 = 0;⟧
 //@ rw R9 1 ⟦let mut perm = 0;⟧ => ⟦let mut perm: u32 = 0;⟧
 //@ loop 1
@@ -60,44 +191,116 @@ pub fn _pop(chars: &mut Vec<char>, sym: &Str) -> (r: RvResult<char>)
             mode & !0o777u32 == entry.m & !0o777u32, group & !0o777u32 == 0,
             entry.link ==> mode == entry.m,
             (state != State::Target) ==> !entry.link,
-        decreases chars@.len()
+            prev == chars.rest(),
+            !done ==> run(*entry, mode, prev, phase_of(state, group, op, ac), gf, gs) == goal,
+            done ==> prev.len() == 0 && fin(gs, Res::Ok(mode)) == goal,
+            state == State::Group ==> group == 0,
+        decreases chars.rest().len()
 //@ endloop
 //@ loop 2
                     invariant_except_break
                         state == State::Target,
+                        target_scan(*entry, R, i) == target_scan(*entry, R, 0),
+                        chars.rest() == R.skip(i + 1),
                     invariant
                         mode & !0o777u32 == entry.m & !0o777u32, group & !0o777u32 == 0, entry.link ==> mode == entry.m,
-                        octal == 0, sym@.len() > 0, chars@.len() <= n0,
+                        octal == 0, sym@.len() > 0, chars.rest().len() <= n0,
+                        0 <= i < R.len(), c == R[i], group == 0,
                     ensures
-                        state == State::Target || (state == State::Group && !entry.link),
-                    decreases chars@.len()
+                        (state == State::Target && target_scan(*entry, R, 0) == TScan::Skip(skip_clause(R, i + 1)) && chars.rest() == R.skip(skip_clause(R, i + 1)))
+                        || (state == State::Group && !entry.link && target_scan(*entry, R, 0) == TScan::Colon(i + 1) && chars.rest() == R.skip(i + 1)),
+                    decreases chars.rest().len()
 //@ endloop
 //@ loop 3
-                            invariant chars@.len() <= n0
-                            decreases chars@.len()
+                            invariant_except_break
+                                skip_clause(R, j) == skip_clause(R, i + 1),
+                            invariant
+                                chars.rest().len() <= n0, i + 1 <= j <= R.len(), chars.rest() == R.skip(j),
+                            ensures
+                                chars.rest() == R.skip(skip_clause(R, i + 1)),
+                            decreases chars.rest().len()
 //@ endloop
 //@ loop 4
                     invariant_except_break
                         state == State::Group,
+                        group_scan(R, i, group) == group_scan(R, 0, 0),
                     invariant
                         mode & !0o777u32 == entry.m & !0o777u32, group & !0o777u32 == 0, entry.link ==> mode == entry.m,
-                        !entry.link, octal == 0, sym@.len() > 0, chars@.len() <= n0,
-                    ensures state == State::Perms,
-                    decreases chars@.len()
+                        !entry.link, octal == 0, sym@.len() > 0, chars.rest().len() <= n0,
+                        0 <= i < R.len(), c == R[i], chars.rest() == R.skip(i + 1),
+                    ensures state == State::Perms, group_scan(R, 0, 0) == GScan::Done(group, op, i + 1),
+                    decreases chars.rest().len()
 //@ endloop
 //@ loop 5
+                    invariant_except_break
+                        state == State::Perms ==> perm_scan(R, i, perm) == perm_scan(R, 0, 0),
                     invariant
                         mode & !0o777u32 == entry.m & !0o777u32, group & !0o777u32 == 0, entry.link ==> mode == entry.m,
-                        !entry.link, octal == 0, sym@.len() > 0, chars@.len() <= n0,
+                        !entry.link, octal == 0, sym@.len() > 0, chars.rest().len() <= n0,
                         state == State::Perms || state == State::Target,
-                    decreases chars@.len(), (if state == State::Perms { 1int } else { 0int })
+                        0 <= i < R.len(), c == R[i], chars.rest() == R.skip(i + 1),
+                        state == State::Target ==> perm_scan(R, 0, 0) == PScan::Comma(perm, i + 1),
+                    ensures
+                        state == State::Perms ==> perm_scan(R, 0, 0) == PScan::End(perm) && chars.rest().len() == 0,
+                    decreases chars.rest().len(), (if state == State::Perms { 1int } else { 0int })
 //@ endloop
-//@ ins before ⟦match state { State::Target => {⟧
-            let ghost n0 = chars@.len();
-            proof { assert(0u32 & !0o777u32 == 0u32) by (bit_vector); }
-//@ endins
 //@ ins after ⟦let mut state = State::Target;⟧
+    let ghost goal = run(*entry, entry.m, sym@, Phase::T(false), true, true);
+    let ghost mut ac: bool = false;
+    let ghost mut prev = chars.rest();
+    let ghost mut gf: bool = true;
+    let ghost mut gs: bool = true;
+    let ghost mut done: bool = false;
     proof { assert(0u32 & !0o777u32 == 0u32) by (bit_vector); }
+//@ endins
+//@ ins before ⟦match state { State::Target => {⟧
+            let ghost n0 = chars.rest().len();
+            let ghost R = prev;
+            let ghost mut i: int = 0;
+            proof {
+                assert(0u32 & !0o777u32 == 0u32) by (bit_vector);
+                assert(R.len() > 0 && c == R[0] && chars.rest() == R.skip(1));
+                lemma_tscan_bounds(*entry, R, 0); lemma_gscan_bounds(R, 0, 0); lemma_pscan_bounds(R, 0, 0);
+            }
+//@ endins
+//@ ins loopend 1
+            proof { prev = chars.rest(); }
+//@ endins
+//@ ins afterloop 2
+                proof { if state == State::Target { gf = false; ac = comma_found(R, 0); } else { gs = gs && (i + 1 == 2); } }
+//@ endins
+//@ ins after ⟦_ => mode = (!group & mode) | (group & perm), }⟧
+                proof { if state == State::Target { gf = false; ac = true; } else { done = true; } }
+//@ endins
+//@ ins before ⟦while let Some(x) = chars.pop() {⟧
+                        let ghost mut j: int = i + 1;
+//@ endins
+//@ ins before ⟦if x == ',' { break; }⟧
+                            proof {
+                                assert(x == R[j]);
+                                assert(R.skip(j).skip(1) =~= R.skip(j + 1));
+                                j = j + 1;
+                            }
+//@ endins
+//@ ins before#1 ⟦c = _pop(&mut chars, sym)?;⟧
+                    proof {
+                        assert(target_scan(*entry, R, i) == target_scan(*entry, R, i + 1));
+                        if i + 1 >= R.len() { assert(target_scan(*entry, R, i + 1) == TScan::Bad(ErrKind::InvalidChmod)); assert(R.skip(i + 1).len() == 0); }
+                    }
+//@ endins
+//@ ins before#2 ⟦c = _pop(&mut chars, sym)?;⟧
+                    proof {
+                        if i + 1 >= R.len() { assert(group_scan(R, i + 1, group) == GScan::Bad(ErrKind::InvalidChmod)); assert(R.skip(i + 1).len() == 0); }
+                    }
+//@ endins
+//@ ins after#1 ⟦c = _pop(&mut chars, sym)?;⟧
+                    proof { assert(R.skip(i + 1).skip(1) =~= R.skip(i + 2)); i = i + 1; }
+//@ endins
+//@ ins after#2 ⟦c = _pop(&mut chars, sym)?;⟧
+                    proof { assert(R.skip(i + 1).skip(1) =~= R.skip(i + 2)); i = i + 1; }
+//@ endins
+//@ ins after ⟦c = chars.pop().unwrap();⟧
+                                proof { assert(R.skip(i + 1).skip(1) =~= R.skip(i + 2)); i = i + 1; }
 //@ endins
 //@ ins before ⟦match c { 'u' => group |= 0o0700,⟧
                     proof { lemma_group_bits(group); }
@@ -105,15 +308,251 @@ pub fn _pop(chars: &mut Vec<char>, sym: &Str) -> (r: RvResult<char>)
 //@ ins before ⟦match op { '-' => mode &= !(group & perm),⟧
                 proof { lemma_perm_bits(mode, group, perm); }
 //@ endins
+#[verifier::loop_isolation(false)]
+#[verifier::allow_complex_invariants]
 pub fn mode(entry: &VfsEntry, octal: u32, sym: &Str) -> (r: RvResult<u32>)
     ensures
         octal != 0 ==> r is Ok && r->Ok_0 == octal,                                                   //@ clause mode.octal_takes_priority [C11]
         (octal == 0 && sym@.len() == 0) ==> r is Ok && r->Ok_0 == 0,                                   //@ clause mode.empty_expression_is_zero [C11]
         (octal == 0 && sym@.len() > 0 && r is Ok) ==> r->Ok_0 & !0o777u32 == entry.m & !0o777u32,      //@ clause mode.keeps_file_type_bits [C11]
         (octal == 0 && sym@.len() > 0 && r is Ok && entry.link) ==> r->Ok_0 == entry.m,                //@ clause mode.never_alters_a_symlink [C11]
+        // the result is exactly what the documented grammar prescribes (forward interpreter `run`), value or error kind
+        (octal == 0 && sym@.len() > 0) ==> agrees(run(*entry, entry.m, sym@, Phase::T(false), true, true), r),          //@ clause mode.equals_grammar_interpreter [C11]
 //@ body
 
 //@ item revoking_mode file=src/sys/fs/chmod.rs fn=revoking_mode props=C11,C12
 pub fn revoking_mode(old: u32, new: u32) -> (r: bool)
     ensures r == (old & 0o0500 > new & 0o0500 || old & 0o0050 > new & 0o0050 || old & 0o0005 > new & 0o0005)
 //@ body
+
+// =====================================================================================================================
+// The documented grammar, clause by clause, and the theorem that the interpreter (hence, by the clause above, the real
+// sys::mode) computes exactly its left-to-right fold for every well-formed expression, and fails for a malformed first clause.
+pub struct Clause { pub t: char, pub g: Seq<char>, pub op: char, pub p: Seq<char> }
+pub open spec fn is_target(c: char) -> bool { c == 'd' || c == 'f' || c == 'a' }
+pub open spec fn is_group(c: char) -> bool { c == 'u' || c == 'g' || c == 'o' || c == 'a' }
+pub open spec fn is_op(c: char) -> bool { c == '-' || c == '+' || c == '=' }
+pub open spec fn is_perm(c: char) -> bool { c == 'r' || c == 'w' || c == 'x' }
+pub open spec fn wf_clause(c: Clause) -> bool {
+    &&& is_target(c.t) && is_op(c.op) && c.g.len() > 0 && c.p.len() > 0
+    &&& forall|i: int| 0 <= i < c.g.len() ==> is_group(#[trigger] c.g[i])
+    &&& forall|i: int| 0 <= i < c.p.len() ==> is_perm(#[trigger] c.p[i])
+}
+pub open spec fn render(c: Clause) -> Seq<char> { seq![c.t, ':'] + c.g + seq![c.op] + c.p }
+pub open spec fn gfold(g: Seq<char>) -> u32 decreases g.len() { if g.len() == 0 { 0 } else { group_bits(g[0]) | gfold(g.skip(1)) } }
+pub open spec fn pfold(p: Seq<char>) -> u32 decreases p.len() { if p.len() == 0 { 0 } else { perm_bits(p[0]) | pfold(p.skip(1)) } }
+pub open spec fn applies(e: VfsEntry, c: Clause) -> bool { !e.link && !(c.t == 'd' && !e.dir) && !(c.t == 'f' && !e.file) }
+pub open spec fn sem1(e: VfsEntry, m: u32, c: Clause) -> u32 { if applies(e, c) { apply_op(m, gfold(c.g), c.op, pfold(c.p)) } else { m } }
+pub open spec fn sem(e: VfsEntry, m: u32, cs: Seq<Clause>) -> u32 decreases cs.len() { if cs.len() == 0 { m } else { sem(e, sem1(e, m, cs[0]), cs.skip(1)) } }
+pub open spec fn render_all(cs: Seq<Clause>) -> Seq<char> decreases cs.len() {
+    if cs.len() == 0 { Seq::empty() } else if cs.len() == 1 { render(cs[0]) } else { render(cs[0]) + seq![','] + render_all(cs.skip(1)) }
+}
+
+pub proof fn lemma_or_assoc(a: u32, b: u32, c: u32) ensures (a | b) | c == a | (b | c), a | 0u32 == a, 0u32 | a == a {
+    assert((a | b) | c == a | (b | c)) by (bit_vector);
+    assert(a | 0u32 == a) by (bit_vector);
+    assert(0u32 | a == a) by (bit_vector);
+}
+pub proof fn lemma_bits_nonzero(a: u32, c: char)
+    ensures is_group(c) ==> (group_bits(c) | a) != 0, is_perm(c) ==> (perm_bits(c) | a) != 0
+{
+    assert((0o0700u32 | a) != 0) by (bit_vector); assert((0o0070u32 | a) != 0) by (bit_vector);
+    assert((0o0007u32 | a) != 0) by (bit_vector); assert((0o0777u32 | a) != 0) by (bit_vector);
+    assert((0o0444u32 | a) != 0) by (bit_vector); assert((0o0222u32 | a) != 0) by (bit_vector); assert((0o0111u32 | a) != 0) by (bit_vector);
+}
+// scanning the group letters g (at offset k of r) followed by an operator
+pub proof fn lemma_group_run(r: Seq<char>, k: int, g: Seq<char>, op: char, acc: u32, i: int)
+    requires 0 <= k, 0 <= i <= g.len(), k + g.len() < r.len(), is_op(op), r[k + g.len()] == op,
+             forall|j: int| 0 <= j < g.len() ==> r[k + j] == g[j] && is_group(#[trigger] g[j]),
+    ensures group_scan(r, k + i, acc) == GScan::Done(acc | gfold(g.skip(i)), op, k + g.len() + 1)
+    decreases g.len() - i
+{
+    if i == g.len() {
+        assert(g.skip(i) =~= Seq::<char>::empty());
+        lemma_or_assoc(acc, 0, 0);
+    } else {
+        let c = g[i];
+        assert(r[k + i] == c);
+        lemma_group_run(r, k, g, op, acc | group_bits(c), i + 1);
+        assert(g.skip(i).skip(1) =~= g.skip(i + 1));
+        assert(g.skip(i)[0] == c);
+        lemma_or_assoc(acc, group_bits(c), gfold(g.skip(i + 1)));
+    }
+}
+// scanning the permission letters p (at offset k of r) up to the end of input or a comma
+pub proof fn lemma_perm_run(r: Seq<char>, k: int, p: Seq<char>, acc: u32, i: int)
+    requires 0 <= k, 0 <= i < p.len(), k + p.len() <= r.len(), (k + p.len() < r.len() ==> r[k + p.len()] == ','),
+             forall|j: int| 0 <= j < p.len() ==> r[k + j] == p[j] && is_perm(#[trigger] p[j]),
+    ensures perm_scan(r, k + i, acc) == (if k + p.len() == r.len() { PScan::End(acc | pfold(p.skip(i))) } else { PScan::Comma(acc | pfold(p.skip(i)), k + p.len() + 1) })
+    decreases p.len() - i
+{
+    let c = p[i];
+    assert(r[k + i] == c);
+    assert(p.skip(i).skip(1) =~= p.skip(i + 1));
+    assert(p.skip(i)[0] == c);
+    if i + 1 == p.len() {
+        assert(p.skip(i + 1) =~= Seq::<char>::empty());
+        lemma_or_assoc(acc, perm_bits(c), 0);
+        lemma_or_assoc(acc | perm_bits(c), 0, 0);
+        if k + p.len() < r.len() {
+            assert(r[k + i + 1] == ',');
+            assert(perm_scan(r, k + i + 1, acc | perm_bits(c)) == PScan::Comma(acc | perm_bits(c), k + i + 2));
+        }
+        assert(pfold(p.skip(i)) == perm_bits(c) | pfold(p.skip(i + 1)));
+        assert(pfold(p.skip(i + 1)) == 0);
+    } else {
+        lemma_perm_run(r, k, p, acc | perm_bits(c), i + 1);
+        lemma_or_assoc(acc, perm_bits(c), pfold(p.skip(i + 1)));
+    }
+}
+pub proof fn lemma_fold_nonzero(g: Seq<char>, p: Seq<char>)
+    ensures (g.len() > 0 && is_group(g[0])) ==> gfold(g) != 0, (p.len() > 0 && is_perm(p[0])) ==> pfold(p) != 0
+{
+    if g.len() > 0 { lemma_bits_nonzero(gfold(g.skip(1)), g[0]); }
+    if p.len() > 0 { lemma_bits_nonzero(pfold(p.skip(1)), p[0]); }
+}
+// no character of a rendered clause is a comma, so skipping a clause stops exactly at the separator behind it (or at the end)
+pub proof fn lemma_skip_rendered(r: Seq<char>, n: int, i: int)
+    requires 0 <= i <= n <= r.len(), forall|j: int| 0 <= j < n ==> #[trigger] r[j] != ',', (n < r.len() ==> r[n] == ',')
+    ensures skip_clause(r, i) == (if n < r.len() { n + 1 } else { n }), comma_found(r, i) == (n < r.len())
+    decreases n - i
+{
+    if i < n { lemma_skip_rendered(r, n, i + 1); }
+}
+//@ obligation lemma_or_assoc props=C11
+//@ obligation lemma_bits_nonzero props=C11
+//@ obligation lemma_group_run props=C11
+//@ obligation lemma_perm_run props=C11
+//@ obligation lemma_fold_nonzero props=C11
+//@ obligation lemma_skip_rendered props=C11
+
+// one well-formed clause in front of `tail` (empty, or a comma followed by the rest of the expression)
+pub proof fn lemma_clause_step(e: VfsEntry, m: u32, c: Clause, tail: Seq<char>, ac: bool, first: bool)
+    requires wf_clause(c), tail.len() == 0 || tail[0] == ','
+    ensures run(e, m, render(c) + tail, Phase::T(ac), first, true) ==
+                (if tail.len() == 0 { Res::Ok(sem1(e, m, c)) } else { run(e, sem1(e, m, c), tail.skip(1), Phase::T(true), false, true) })
+{
+    let rc = render(c);
+    let r = rc + tail;
+    let n = rc.len() as int;
+    let gl = c.g.len() as int;
+    let pl = c.p.len() as int;
+    assert(n == 2 + gl + 1 + pl);
+    assert(r[0] == c.t && r[1] == ':');
+    assert forall|j: int| 0 <= j < gl implies r[2 + j] == c.g[j] by { }
+    assert(r[2 + gl] == c.op);
+    assert forall|j: int| 0 <= j < pl implies r[2 + gl + 1 + j] == c.p[j] by { }
+    if tail.len() > 0 { assert(r[n] == ','); }
+    assert(is_group(c.g[0]) && is_perm(c.p[0]));
+    lemma_fold_nonzero(c.g, c.p);
+    assert(gfold(c.g) != 0 && pfold(c.p) != 0);
+    if applies(e, c) {
+        // targets: one matching letter then ':'
+        assert(target_scan(e, r, 0) == target_scan(e, r, 1));
+        assert(target_scan(e, r, 1) == TScan::Colon(2));
+        let r2 = r.skip(2);
+        assert(r2.len() > 0);
+        assert forall|j: int| 0 <= j < gl implies r2[0 + j] == c.g[j] && is_group(#[trigger] c.g[j]) by { assert(r2[j] == r[2 + j]); }
+        assert(r2[0 + gl] == c.op);
+        lemma_group_run(r2, 0, c.g, c.op, 0, 0);
+        assert(c.g.skip(0) =~= c.g);
+        lemma_or_assoc(gfold(c.g), 0, 0);
+        assert(group_scan(r2, 0, 0) == GScan::Done(gfold(c.g), c.op, gl + 1));
+        let r3 = r2.skip(gl + 1);
+        assert(r3 =~= r.skip(2 + gl + 1));
+        assert(r3.len() > 0);
+        assert forall|j: int| 0 <= j < pl implies r3[0 + j] == c.p[j] && is_perm(#[trigger] c.p[j]) by { assert(r3[j] == r[2 + gl + 1 + j]); }
+        if tail.len() > 0 { assert(r3[0 + pl] == ','); }
+        lemma_perm_run(r3, 0, c.p, 0, 0);
+        assert(c.p.skip(0) =~= c.p);
+        lemma_or_assoc(pfold(c.p), 0, 0);
+        if tail.len() > 0 { assert(r3.skip(pl + 1) =~= tail.skip(1)); }
+        assert(run(e, m, r, Phase::T(ac), first, true) == run(e, m, r2, Phase::G, first, true));
+        assert(run(e, m, r2, Phase::G, first, true) == run(e, m, r3, Phase::P(gfold(c.g), c.op), first, true));
+        if tail.len() == 0 {
+            assert(perm_scan(r3, 0, 0) == PScan::End(pfold(c.p)));
+            assert(run(e, m, r3, Phase::P(gfold(c.g), c.op), first, true) == fin(true, Res::Ok(apply_op(m, gfold(c.g), c.op, pfold(c.p)))));
+        } else {
+            assert(run(e, m, r3, Phase::P(gfold(c.g), c.op), first, true) == run(e, apply_op(m, gfold(c.g), c.op, pfold(c.p)), r3.skip(pl + 1), Phase::T(true), false, true));
+            assert(perm_scan(r3, 0, 0) == PScan::Comma(pfold(c.p), pl + 1));
+        }
+    } else {
+        assert(target_scan(e, r, 0) == TScan::Skip(skip_clause(r, 1)));
+        assert forall|j: int| 0 <= j < n implies #[trigger] r[j] != ',' by {
+            if j >= 2 && j < 2 + gl { assert(is_group(c.g[j - 2])); }
+            if j > 2 + gl { assert(is_perm(c.p[j - 3 - gl])); }
+        }
+        lemma_skip_rendered(r, n, 1);
+        lemma_skip_rendered(r, n, 0);
+        if tail.len() > 0 { assert(r.skip(n + 1) =~= tail.skip(1)); } else { assert(r.skip(n) =~= Seq::<char>::empty()); }
+        assert(run(e, m, r, Phase::T(ac), first, true) == run(e, m, r.skip(skip_clause(r, 1)), Phase::T(comma_found(r, 0)), false, true));
+        assert(sem1(e, m, c) == m);
+        if tail.len() == 0 { assert(skip_clause(r, 1) == n); assert(!comma_found(r, 0)); assert(run(e, m, r.skip(n), Phase::T(false), false, true) == Res::Ok(m)); }
+        else { assert(skip_clause(r, 1) == n + 1); assert(comma_found(r, 0)); }
+    }
+}
+//@ obligation lemma_clause_step props=C11
+
+// THEOREM: for every well-formed expression the interpreter yields exactly the left-to-right fold of its clauses
+pub proof fn theorem_grammar_fold(e: VfsEntry, m: u32, cs: Seq<Clause>, ac: bool, first: bool)
+    requires cs.len() > 0, forall|i: int| 0 <= i < cs.len() ==> wf_clause(#[trigger] cs[i])
+    ensures run(e, m, render_all(cs), Phase::T(ac), first, true) == Res::Ok(sem(e, m, cs))      //@ clause mode.value_is_the_fold_of_the_documented_grammar [C11]
+    decreases cs.len()
+{
+    if cs.len() == 1 {
+        lemma_clause_step(e, m, cs[0], Seq::empty(), ac, first);
+        assert(render(cs[0]) + Seq::<char>::empty() =~= render(cs[0]));
+        assert(cs.skip(1) =~= Seq::<Clause>::empty());
+        assert(sem(e, sem1(e, m, cs[0]), cs.skip(1)) == sem1(e, m, cs[0]));
+    } else {
+        let rest = cs.skip(1);
+        let tail = seq![','] + render_all(rest);
+        lemma_clause_step(e, m, cs[0], tail, ac, first);
+        assert(render(cs[0]) + seq![','] + render_all(rest) =~= render(cs[0]) + tail);
+        assert(tail.skip(1) =~= render_all(rest));
+        assert forall|i: int| 0 <= i < rest.len() implies wf_clause(#[trigger] rest[i]) by { assert(rest[i] == cs[i + 1]); }
+        theorem_grammar_fold(e, sem1(e, m, cs[0]), rest, true, false);
+    }
+}
+//@ obligation theorem_grammar_fold props=C11
+
+// A malformed FIRST clause is an error (for an entry the clause's single target letter applies to, or an invalid target letter)
+pub proof fn theorem_malformed_first_clause(e: VfsEntry, m: u32, s: Seq<char>)
+    requires s.len() > 0
+    ensures
+        // invalid target letter
+        (s[0] != 'd' && s[0] != 'f' && s[0] != 'a' && s[0] != ':') ==> run(e, m, s, Phase::T(false), true, true) == Res::Err(ErrKind::InvalidChmodTarget),     //@ clause mode.bad_target_is_error [C11]
+        // `t:` followed by something that is neither a group letter nor an operator, or by an operator with no group letter at all
+        (s.len() >= 3 && is_target(s[0]) && s[1] == ':' && !e.link && !(s[0] == 'd' && !e.dir) && !(s[0] == 'f' && !e.file) && !is_group(s[2])) ==>
+            run(e, m, s, Phase::T(false), true, true) == Res::Err(ErrKind::InvalidChmodGroup),                                                                  //@ clause mode.missing_or_bad_group_is_error [C11]
+        // `t:g<op>` followed by a character that is not a permission letter (including a comma: empty permission list)
+        (s.len() >= 5 && is_target(s[0]) && s[1] == ':' && !e.link && !(s[0] == 'd' && !e.dir) && !(s[0] == 'f' && !e.file) && is_group(s[2]) && is_op(s[3]) && !is_perm(s[4])) ==>
+            run(e, m, s, Phase::T(false), true, true) == Res::Err(ErrKind::InvalidChmodPermissions),                                                            //@ clause mode.missing_or_bad_perms_is_error [C11]
+{
+    if s.len() >= 3 && is_target(s[0]) && s[1] == ':' && !e.link && !(s[0] == 'd' && !e.dir) && !(s[0] == 'f' && !e.file) {
+        assert(target_scan(e, s, 0) == target_scan(e, s, 1));
+        assert(target_scan(e, s, 1) == TScan::Colon(2));
+        let r2 = s.skip(2);
+        assert(r2[0] == s[2]);
+        assert(r2.len() > 0);
+        assert(run(e, m, s, Phase::T(false), true, true) == run(e, m, r2, Phase::G, true, true));
+        if !is_group(s[2]) {
+            if is_op(s[2]) { assert(group_scan(r2, 0, 0) == GScan::Done(0, s[2], 1)); } else { assert(group_scan(r2, 0, 0) == GScan::Bad(ErrKind::InvalidChmodGroup)); }
+            assert(run(e, m, r2, Phase::G, true, true) == Res::Err(ErrKind::InvalidChmodGroup));
+        } else if s.len() >= 5 && is_op(s[3]) && !is_perm(s[4]) {
+            assert(r2[1] == s[3]);
+            lemma_bits_nonzero(0, s[2]);
+            lemma_or_assoc(group_bits(s[2]), 0, 0);
+            assert(group_scan(r2, 0, 0) == group_scan(r2, 1, 0 | group_bits(s[2])));
+            assert(group_scan(r2, 1, 0 | group_bits(s[2])) == GScan::Done(0 | group_bits(s[2]), s[3], 2));
+            assert((0u32 | group_bits(s[2])) != 0) by { lemma_bits_nonzero(0, s[2]); assert(group_bits(s[2]) | 0u32 == 0u32 | group_bits(s[2])) by (bit_vector); }
+            let r3 = r2.skip(2);
+            assert(r3[0] == s[4]);
+            if s[4] == ',' { assert(perm_scan(r3, 0, 0) == PScan::Comma(0, 1)); } else { assert(perm_scan(r3, 0, 0) == PScan::Bad(ErrKind::InvalidChmodPermissions)); }
+            assert(r3.len() > 0);
+            assert(run(e, m, r2, Phase::G, true, true) == run(e, m, r3, Phase::P(0u32 | group_bits(s[2]), s[3]), true, true));
+            assert(run(e, m, r3, Phase::P(0u32 | group_bits(s[2]), s[3]), true, true) == Res::Err(ErrKind::InvalidChmodPermissions));
+        }
+    }
+}
+//@ obligation theorem_malformed_first_clause props=C11
